@@ -8,36 +8,7 @@ verus! {
 //%include ../common/encoder.rs
 //%include ../common/header.rs
 
-impl BinEncodable for Header {
-//%fn crates/proto/src/op/header.rs :: impl BinEncodable for Header :: emit
-//%contract
-        ensures final(encoder).name_pointers == old(encoder).name_pointers,
-            // C02/C03: exactly the 12 octets of RFC 1035 4.1.1 are written at the old offset
-            r is Ok ==> final(encoder).offset == old(encoder).offset + 12,
-            r is Ok ==> hdr_bytes_at(*self, final(encoder).bytes(), old(encoder).offset as int, 0xFF),
-            r is Ok ==> final(encoder).bytes().len() == (if old(encoder).offset + 12 > old(encoder).bytes().len() { old(encoder).offset + 12 } else { old(encoder).bytes().len() as int }),
-            r is Ok ==> (forall|i: int| old(encoder).offset + 12 <= i < old(encoder).bytes().len() ==> final(encoder).bytes()[i] == old(encoder).bytes()[i]),
-            r is Err ==> old(encoder).offset + 12 > old(encoder).max(),
-//%before "r_z_ad_cd_rcod.emit(encoder)?;"
-        proof {
-            let x = r_z_ad_cd_rcod;
-            assert(x & 0xFF == x) by (bit_vector);
-        }
-//%before "Ok(())"
-        proof {
-            let o = old(encoder).offset as int;
-            let b = encoder.bytes();
-            assert(be16(b[o], b[o + 1]) == self.metadata.id);
-            assert(b[o + 2] == hdr_b2(self.metadata));
-            assert(b[o + 3] == r_z_ad_cd_rcod);
-            assert(b[o + 3] & 0xFF == hdr_b3(self.metadata));
-            assert(be16(b[o + 4], b[o + 5]) == self.counts.queries);
-            assert(be16(b[o + 10], b[o + 11]) == self.counts.additionals);
-        }
-//%mutant tc_bit_wrong "if self.truncation { 0x2 }" => "if self.truncation { 0x4 }"
-//%mutant rcode_high_leak "self.response_code.low()" => "self.response_code.high()"
-//%end
-}
+
 
 //%fn crates/proto/src/op/header.rs :: impl<'r> BinDecodable<'r> for Header :: read
 //%rename header_read<'r>
